@@ -295,6 +295,15 @@ pub fn finish(args: &Args, rep: &Report) {
     }
 }
 
+/// the top-level "request" field of a replay file written by the orchestrator ("" if absent)
+pub fn replay_request(path: &str) -> String {
+    let txt = std::fs::read_to_string(path).unwrap_or_default();
+    match serde_json::from_str::<serde_json::Value>(&txt) {
+        Ok(v) => v.get("request").and_then(|r| r.as_str()).unwrap_or("").to_string(),
+        Err(_) => String::new(),
+    }
+}
+
 /// run `f` and turn a panic into the outcome "PANIC"
 pub fn guarded<F: FnOnce() -> String + std::panic::UnwindSafe>(f: F) -> String {
     match std::panic::catch_unwind(f) {
